@@ -996,3 +996,98 @@ Fixpoint other_terms (term : f64 -> nat -> f64) (cs : list f64) (vs : list nat) 
 Lemma sum_others_fsum : forall term cs vs i j acc, sum_others term cs vs i j acc = fsum (other_terms term cs vs i j) acc.
 Proof. intros term. induction cs as [|c cs IH]; intros vs i j acc; simpl; auto.
   destruct vs as [|v vs]; simpl; auto. destruct (Nat.eqb i j); simpl; apply IH. Qed.
+
+(* ================================================================ acceptance of the fast path's candidate (C08)
+   Model/FloatDispatch.v, fp_accepts = Model::accepts_candidate.  Structural facts only: what an accepted candidate has
+   been through.  Nothing is assumed about the propagators (any list of fprop) or about the candidate. *)
+Require Import Selen.Model.FloatDispatch.
+
+Lemma schedule_keeps : forall q x p, In p q -> In p (schedule q x).
+Proof. intros q x p H. unfold schedule. destruct (memn x q); auto. apply in_or_app; auto. Qed.
+Lemma schedule_self : forall q p, In p (schedule q p).
+Proof. intros q p. unfold schedule. destruct (memn p q) eqn:E.
+  - unfold memn in E. apply existsb_exists in E. destruct E as (y & Hy & E). apply Nat.eqb_eq in E. subst; auto.
+  - apply in_or_app; right; left; auto. Qed.
+Lemma fold_schedule_keeps : forall l q p, In p q -> In p (fold_left schedule l q).
+Proof. induction l as [|x l IH]; simpl; intros q p H; auto. apply IH. apply schedule_keeps; auto. Qed.
+Lemma fold_schedule_all : forall l q p, In p l -> In p (fold_left schedule l q).
+Proof. induction l as [|x l IH]; simpl; intros q p H. contradiction.
+  destruct H as [<-|H]. apply fold_schedule_keeps. apply schedule_self. apply IH; auto. Qed.
+Lemma fschedule_events_keeps : forall ps ev q p, In p q -> In p (fschedule_events ps q ev).
+Proof. intros ps ev. unfold fschedule_events. induction ev as [|v ev IH]; simpl; intros q p H; auto.
+  apply IH. apply fold_schedule_keeps; auto. Qed.
+
+(* the propagator with PropId p was run and did not fail *)
+Definition ran_ok (ps : list fprop) (p : nat) : Prop :=
+  exists pr st st' ev, nth_error ps p = Some pr /\ fprune pr (st, []) = Some (st', ev).
+
+(* a propagation that ends normally has run every propagator that was ever on the agenda, and none of the runs failed *)
+Lemma fpropagate_done_runs : forall pf ps s q s' lft, fpropagate pf ps s q = (FPDone s', lft) ->
+  forall p, In p q -> ran_ok ps p.
+Proof. induction pf as [|f IH]; intros ps s q s' lft H p Hp.
+  - destruct q; simpl in H; [contradiction|discriminate].
+  - destruct q as [|x q']; [contradiction|]. simpl in H.
+    destruct (nth_error ps x) as [pr|] eqn:En; [|discriminate].
+    destruct (fprune pr (s, [])) as [[s1 ev]|] eqn:Ep; [|discriminate].
+    destruct Hp as [<-|Hp].
+    + exists pr, s, s1, ev. auto.
+    + eapply IH; [exact H|]. apply fschedule_events_keeps; auto. Qed.
+
+Lemma passes_propagation_runs_all : forall pf ps s s', passes_propagation pf ps s = Some s' ->
+  fpropagate_all pf ps s = FPDone s' /\ forall p, (p < length ps)%nat -> ran_ok ps p.
+Proof. intros pf ps s s' H. unfold passes_propagation in H.
+  destruct (fpropagate_all pf ps s) as [| |s1] eqn:E; try discriminate. inversion H; subst. split; auto.
+  intros p Hp. unfold fpropagate_all in E.
+  destruct (fpropagate pf ps s (agenda_with (seq 0 (length ps)))) as [r lft] eqn:E2. simpl in E. subst r.
+  eapply fpropagate_done_runs; [exact E2|]. unfold agenda_with. apply fold_schedule_all. apply in_seq. lia. Qed.
+
+(* the store the check starts from holds exactly the candidate, and every candidate value was in its variable's domain *)
+Definition in_domain (x : fvar) (c : fval) : Prop :=
+  match x, c with
+  | VI d, VlI z => In z d
+  | VF i, VlF v => fi_contains i v = true
+  | _, _ => False
+  end.
+Lemma fix_var_spec : forall x c y, fix_var x c = Some y -> in_domain x c /\ var_value y = c /\ var_max y = c.
+Proof. intros x c y H. destruct x as [d|i], c as [z|v]; simpl in H; try discriminate.
+  - destruct (existsb (Z.eqb z) d) eqn:E; [|discriminate]. inversion H; subst. simpl. split; auto.
+    apply existsb_exists in E. destruct E as (w & Hw & E). apply Z.eqb_eq in E. subst; auto.
+  - destruct (fi_contains i v) eqn:E; simpl in H; [|discriminate].
+    destruct (negb (fi_is_empty (mkfi v v (istep i)))); [|discriminate]. inversion H; subst. simpl. auto. Qed.
+Lemma fix_all_spec : forall s cand s0, fix_all s cand = Some s0 ->
+  Forall2 in_domain s cand /\ map var_value s0 = cand /\ map var_max s0 = cand.
+Proof. induction s as [|x s IH]; intros cand s0 H; destruct cand as [|c cand]; simpl in H; try discriminate.
+  - inversion H; subst. simpl. auto.
+  - destruct (fix_var x c) as [y|] eqn:Ey; [|discriminate].
+    destruct (fix_all s cand) as [r|] eqn:Er; [|discriminate]. inversion H; subst.
+    destruct (fix_var_spec _ _ _ Ey) as (A & B & C). destruct (IH _ _ Er) as (D & E & F).
+    simpl. repeat split; auto; congruence. Qed.
+
+Theorem fp_accepts_checked : forall mn pf ps s obj cand, fp_accepts mn pf ps s obj cand = true ->
+  exists s0 sf sr,
+    (* every value is in its variable's domain and the check starts from the store that holds exactly the candidate *)
+    Forall2 in_domain s cand /\ fix_all s cand = Some s0 /\ map var_value s0 = cand /\ map var_max s0 = cand /\
+    (* from there the ordinary propagation ends normally: every propagator of the model was run, no run failed *)
+    fpropagate_all pf ps s0 = FPDone sf /\ (forall p, (p < length ps)%nat -> ran_ok ps p) /\
+    (* the model itself propagates, and the candidate's objective attains the bound that propagation leaves *)
+    fpropagate_all pf ps s = FPDone sr /\
+    (if mn then val_le (fv_min obj sf) (val_add (fv_min obj sr) (fp_slack obj s))
+     else val_ge (val_add (fv_max obj sf) (fp_slack obj s)) (fv_max obj sr)) = true.
+Proof. intros mn pf ps s obj cand H. unfold fp_accepts, fp_feasible in H.
+  destruct (fix_all s cand) as [s0|] eqn:E0; [|discriminate].
+  destruct (passes_propagation pf ps s0) as [sf|] eqn:Ef; [|discriminate].
+  destruct (passes_propagation pf ps s) as [sr|] eqn:Er; [|discriminate].
+  destruct (fix_all_spec _ _ _ E0) as (A & B & C).
+  destruct (passes_propagation_runs_all _ _ _ _ Ef) as (D & E).
+  destruct (passes_propagation_runs_all _ _ _ _ Er) as (F & _).
+  exists s0, sf, sr. repeat split; auto. Qed.
+
+(* conversely nothing else is needed: the acceptance is exactly these conditions *)
+Theorem fp_rejects : forall mn pf ps s obj cand,
+  (fix_all s cand = None \/ (exists s0, fix_all s cand = Some s0 /\ passes_propagation pf ps s0 = None) \/ passes_propagation pf ps s = None) ->
+  fp_accepts mn pf ps s obj cand = false.
+Proof. intros mn pf ps s obj cand H. unfold fp_accepts, fp_feasible.
+  destruct H as [H|[(s0 & H & H2)|H]].
+  - rewrite H. auto.
+  - rewrite H, H2. auto.
+  - destruct (fix_all s cand) as [s0|]; auto. destruct (passes_propagation pf ps s0); auto. rewrite H. auto. Qed.
